@@ -848,7 +848,7 @@ fn main() {
     let total = plan.total();
     let exe = std::env::current_exe().unwrap();
     let workers: u64 = args.extra.get("workers").and_then(|s| s.parse().ok()).unwrap_or(8);
-    let stall = Duration::from_secs(args.extra.get("stall").and_then(|s| s.parse().ok()).unwrap_or(60));
+    let stall = Duration::from_secs(args.extra.get("stall").and_then(|s| s.parse().ok()).unwrap_or(180));
     // contiguous chunks, a few per worker so that the slow segments are spread
     let chunk = ((total + workers * 6 - 1) / (workers * 6)).max(1);
     let chunks: Vec<(u64, u64)> = (0..total).step_by(chunk as usize).map(|lo| (lo, (lo + chunk).min(total))).collect();
